@@ -2,6 +2,7 @@
 //! in real time. Observations are made with sentinel requests and EOF probes; a failing case is
 //! re-run with doubled settling times before it is reported.
 
+pub mod c01bp;
 pub mod c09;
 pub mod c13;
 pub mod c13s;
